@@ -27,6 +27,7 @@ var ColorNames = map[Color]string{Red: "RED", Green: "GREEN", Blue: "BLUE"}
 type World struct {
 	Seed    uint64
 	Version uint64 // bumped by mutable-data harnesses; part of every value
+	bumps   map[bumpKey]uint64 // see Bump
 	N       int    // nodes have ids 1..N
 	M       int    // leaves have ids 1..M
 	nodes   []*Node
@@ -146,10 +147,44 @@ func mix(x uint64) uint64 {
 	return x ^ (x >> 31)
 }
 
+type bumpKey struct {
+	typ   string
+	id    int64
+	field string
+}
+
+// Bump changes every value derived from H(typ, id, field, *) and nothing else:
+// a fine-grained data change for harnesses whose resolvers depend on one
+// resource per (type, id, field). Not safe concurrently with readers.
+func (w *World) Bump(typ string, id int64, field string) {
+	if w.bumps == nil {
+		w.bumps = map[bumpKey]uint64{}
+	}
+	w.bumps[bumpKey{typ, id, field}]++
+}
+
+// Clone returns an independent world holding the same data.
+func (w *World) Clone() *World {
+	c := NewWorld(w.Seed, w.N, w.M)
+	c.Version = w.Version
+	for k, v := range w.bumps {
+		if c.bumps == nil {
+			c.bumps = map[bumpKey]uint64{}
+		}
+		c.bumps[k] = v
+	}
+	return c
+}
+
 // H hashes (seed, version, typ, id, field, extra).
 func (w *World) H(typ string, id int64, field string, extra int64) uint64 {
 	h := mix(w.Seed ^ 0x1234)
 	h = mix(h ^ w.Version)
+	if len(w.bumps) > 0 {
+		if b := w.bumps[bumpKey{typ, id, field}]; b != 0 {
+			h = mix(h ^ (b * 0x9e3779b97f4a7c15))
+		}
+	}
 	for _, c := range []byte(typ) {
 		h = mix(h ^ uint64(c))
 	}
